@@ -628,7 +628,9 @@ fn main() {
     let nseq = arg_u64("--seqs", if thorough { 400 } else { 70 });
     let len = arg_u64("--len", 40);
     let mut rng = Rng::new(seed);
-    directed(&mut t);
+    if arg_str("--directed").as_deref() != Some("off") {
+        directed(&mut t);
+    }
     for k in 0..nseq {
         let kind = match k % 3 {
             0 => Kind::Ex,
